@@ -80,7 +80,12 @@ def run_case(idx, rng, P, rep):
     NAMES = ['x', 'y', 'z']
 
     def new_param(kind=None, default=None):
-        kind = kind or rng.choice(['Number', 'String', 'Parameter', 'Integer', 'Peek', 'USel', 'Computed'])
+        kind = kind or rng.choice(['Number', 'String', 'Parameter', 'Integer', 'Peek', 'USel', 'Computed', 'USelI'])
+        if kind == 'USelI':
+            # ... the same kind of Selector with a Parameter object per instance: the constructor gives an instance its own copy
+            # when it is handed a value the Selector does not know yet
+            d_ = tok() if default is None else default
+            return param.Selector(objects=[d_], default=d_, check_on_set=False), kind
         if kind == 'Computed':
             return _st['Computed'](default=f'c{tok()}' if default is None else default), kind
         if kind == 'USel':
@@ -96,6 +101,7 @@ def run_case(idx, rng, P, rep):
         return getattr(param, kind)(default=tok() if default is None else default), kind
 
     kinds_of = {}      # name -> kind of the most recent declaration (values follow it)
+    own_defaults = set()   # (id(instance), name): the instance's Parameter object was given a default of its own
     # ---- hierarchy: list of classes, each with parents chosen among earlier ones
     shape = rng.choice(['chain', 'chain', 'diamond', 'tree'])
     classes = []
@@ -222,7 +228,7 @@ def run_case(idx, rng, P, rep):
                     viol('instance/repr-differs', f'{step}: repr(inst{ii})={r} does not show {n}={attr!r}')
                 if n == 'xy' and attr != [getattr(o, 'x'), getattr(o, 'y')]:
                     viol('instance/composite-differs', f'{step}: inst{ii}.xy={attr!r} but [x, y]={[getattr(o, "x"), getattr(o, "y")]!r}')
-                if n in touched and n != 'xy':
+                if n in touched and n != 'xy' and (id(o), n) not in own_defaults:
                     # reading inst.param[n] is part of the history (it creates the per-instance copy)
                     po = o.param[n]
                     if (po.shown(po.default) if isinstance(po, _st['Computed']) else po.default) != getattr(K, n):
@@ -363,7 +369,11 @@ def run_case(idx, rng, P, rep):
                 for n in gov:
                     if n not in ('name', 'xy') and rng.random() < 0.4:
                         kw[n] = value_for(n, K)
-                insts.append((K(**kw), set()))
+                made = (K(**kw), set())
+                for n in kw:
+                    if isinstance(gov[n], param.Selector) and gov[n].per_instance:
+                        made[1].add(n)      # (the constructor made the per-instance copy)
+                insts.append(made)
                 trace.append(('new_instance', K.__name__, kw))
         elif c < 0.8:
             if insts:
@@ -382,9 +392,20 @@ def run_case(idx, rng, P, rep):
                 o, touched = rng.choice(insts)
                 gov = governing(type(o), Parameter)
                 n = rng.choice(list(gov))
-                kinds.append('inst_read')
-                trace.append(('inst_read', type(o).__name__, n))
-                o.param[n]
+                numeric = [m for m in gov if isinstance(gov[m], param.Number)]
+                if numeric and rng.random() < 0.25:
+                    # the instance's own Parameter object is given a default of its own: attribute access (which goes by the
+                    # class for an instance without a value) and the namespace's readers still tell the same story
+                    n = rng.choice(numeric)
+                    kinds.append('inst_param_default')
+                    trace.append(('inst_param_default', type(o).__name__, n))
+                    o.param[n].default = tok()
+                    own_defaults.add((id(o), n))
+                    rep.count('instance_parameter_defaults_set')
+                else:
+                    kinds.append('inst_read')
+                    trace.append(('inst_read', type(o).__name__, n))
+                    o.param[n]
                 touched.add(n)
                 reads_before.add(type(o).__name__)
         else:
